@@ -37,6 +37,8 @@ def run(ck):
     ck.rule("C13.R12", "the set of configured span lifecycle points is what the user's expression denotes: FmtSpan's operators compute the operator they are named after", floor=6)
     ck.rule("C13.R13", "a span's formatted fields accumulate: handing out the writer over them and recording further values never discards what is already there", floor=3)
     ck.rule("C13.R14", "a writer expression denotes what its spelling says: each MakeWriterExt adaptor builds its own combinator from (self, argument) in place, the provided make_writer_for is make_writer, and the sum / guard writers forward every io::Write method to the writer they hold", floor=20)
+    ck.rule("C13.R18", "the fields a JSON record shows for a span are the ones last recorded: a later Span::record is merged over the stored object (stored first, "
+            "new values on top), and a span without stored fields is written without them (as C14.R2)", floor=6)
     ck.rule("C13.R17", "an event that arrives while the thread's locals are being torn down is still written: on_event reaches its per-thread buffer with try_with and "
             "formats into a fresh buffer when it is gone (as it does when the buffer is busy)", floor=1)
     ck.rule("C13.R16", "the formatted fields a span's lines show are the ones stored for it: the per-span type map files and finds a value under its own type's id (as C14.R12)", floor=9)
@@ -66,6 +68,7 @@ def run(ck):
     r17(ck, F)
     from rules import C14 as _C14
     _C14.extensions_typemap(ck, F, "C13.R16")
+    _C14.r2(ck, F, rid="C13.R18")
     from rules import C02
     C02.r6(ck, F, rid="C13.R8")
 
